@@ -135,6 +135,7 @@ type State struct {
 	variant map[*ssa.BasicBlock]*Term
 	callOrd map[string]int // per callee short name: calls seen so far on this path
 	lenv    map[string]Value // loop-carried names visible to contract expressions
+	lenvOwner *ssa.BasicBlock
 	locals  map[string]Value // source-level local variables (from ssa DebugRef)
 	domain  []*Term          // message layer: callee ok-domains assumed on this path
 	canon   []*Term          // message layer: round-trip domain collected on this path
@@ -161,6 +162,7 @@ func (s *State) clone() *State {
 		variant: map[*ssa.BasicBlock]*Term{},
 		callOrd: map[string]int{},
 		lenv:    s.lenv,
+		lenvOwner: s.lenvOwner,
 		locals:  s.locals,
 		domain:  append([]*Term{}, s.domain...),
 		canon:   append([]*Term{}, s.canon...),
